@@ -648,10 +648,14 @@ class Cov(SingleAggregation):
 
     @classmethod
     def aggregate(cls, inputs, **kwargs):
+        chunks = list(_concat(inputs))
         # The chunk of an empty partition has no group keys and differently
         # indexed products, it contributes nothing
-        inputs = [t for t in inputs if len(t[0])] or inputs[:1]
-        return _cov_agg(_concat(inputs), **kwargs)
+        chunks = [t for t in chunks if len(t[0])] or chunks[:1]
+        # _cov_agg removes the group keys from the column mapping in place;
+        # the chunks may have other consumers (cov and corr share them)
+        chunks = [(x, mul, n, mapping.copy()) for x, mul, n, mapping in chunks]
+        return _cov_agg(chunks, **kwargs)
 
     @property
     def chunk_kwargs(self) -> dict:
